@@ -516,6 +516,7 @@ pub fn run_case(env: &mut Env, stream: &str, idx: u64, rng: &mut Rng, log: &mut 
         "ds" => case_ds(env, idx, rng, log, keep),
         "api" => api::case_api(env, idx, rng, log, keep),
         "names" => case_names(env, idx, rng, log),
+        "values" => case_values(env, idx, rng, log, keep),
         _ => {}
     }
 }
@@ -1184,6 +1185,165 @@ pub fn corr(seed: u64, thorough: bool, out: &Path) {
     let _ = std::fs::write(out.join("corr_lay.txt"), s);
     let _ = std::fs::remove_dir_all(&tmp);
     println!("CORR done {}", n);
+}
+
+// ------------------------------------------------------------------------------------ typed string values
+/// multi-byte chars: (char, numeric?) with 2-, 3- and 4-byte encodings; the numeric ones pass
+/// `char::is_numeric` / `is_alphanumeric` but not `is_ascii_digit`
+const MB: &[&str] = &["\u{0661}", "\u{00B2}", "\u{06F3}", "\u{FF11}", "\u{0967}", "\u{2460}", "\u{1D7CF}", "\u{1D7D8}", "é", "ß", "日", "😀", "\u{FF0C}", "\u{FF0F}", "\u{FF1A}", "\u{00A0}", "\u{2003}"];
+
+/// a variant of the ASCII string `base` with 1-3 multi-byte chars substituted.
+/// `same_bytes`: every substituted char replaces as many ASCII bytes as its encoding is long, so the
+/// byte length is unchanged (what a `len() == N` guard sees) and char boundaries move inside fields;
+/// otherwise it replaces one char (same char count, what a `chars().count()` test would see)
+pub fn substitute(rng: &mut Rng, base: &str, same_bytes: bool) -> String {
+    let mut cells: Vec<String> = base.chars().map(|c| c.to_string()).collect();
+    let k = 1 + rng.below(3);
+    for _ in 0..k {
+        let ch = *rng.pick(MB);
+        let w = if same_bytes { ch.len() } else { 1 };
+        if cells.len() < w {
+            continue;
+        }
+        for _try in 0..6 {
+            let at = rng.below((cells.len() - w + 1) as u64) as usize;
+            if cells[at..at + w].iter().all(|c| c.len() == 1) {
+                cells.splice(at..at + w, std::iter::once(ch.to_string()));
+                break;
+            }
+        }
+    }
+    cells.concat()
+}
+
+fn tiny_ufo(dir: &Path, version: u32, fontinfo_body: Option<String>, layerinfo_body: Option<String>, glif: Option<&[u8]>) {
+    let _ = std::fs::create_dir_all(dir.join("glyphs"));
+    let _ = std::fs::write(dir.join("metainfo.plist"), format!("{}<dict><key>creator</key><string>c</string><key>formatVersion</key><integer>{}</integer></dict>\n</plist>\n", PLIST_HEAD, version));
+    if version >= 3 {
+        let _ = std::fs::write(dir.join("layercontents.plist"), layercontents(&[("public.default".into(), "glyphs".into())]));
+    }
+    let ents: Vec<(String, String)> = if glif.is_some() { vec![("a".into(), "a.glif".into())] } else { vec![] };
+    let _ = std::fs::write(dir.join("glyphs/contents.plist"), contents_plist(&ents));
+    if let Some(g) = glif {
+        let _ = std::fs::write(dir.join("glyphs/a.glif"), g);
+    }
+    if let Some(b) = fontinfo_body {
+        let _ = std::fs::write(dir.join("fontinfo.plist"), format!("{}<dict>{}</dict>\n</plist>\n", PLIST_HEAD, b));
+    }
+    if let Some(b) = layerinfo_body {
+        let _ = std::fs::write(dir.join("glyphs/layerinfo.plist"), format!("{}<dict>{}</dict>\n</plist>\n", PLIST_HEAD, b));
+    }
+}
+
+/// structure-aware VALUES for the typed string fields that norad slices or parses by byte offsets
+/// or fixed shapes: each value satisfies the length guard in BYTES (or in chars) but not the
+/// character class, and would satisfy the class under a weakened test (is_numeric, chars().count())
+fn case_values(env: &mut Env, _idx: u64, rng: &mut Rng, log: &mut CaseLog, keep: bool) {
+    let (top, deep) = env.case_dir();
+    let kind = rng.below(10);
+    match kind {
+        0..=3 => {
+            // openTypeHeadCreated: "YYYY/MM/DD HH:MM:SS", 19 bytes
+            let bases = ["2020/01/01 00:00:00", "1999/12/31 23:59:59", "2020/1/01 000:00:00", "0000000000000000000", "2020/01/01 00:00:0", "2020/01/01 00:00:000"];
+            let base = *rng.pick(&bases);
+            let same_bytes = rng.chance(3, 4);
+            let v = match rng.below(8) {
+                0 => base.to_string(),
+                _ => substitute(rng, base, same_bytes),
+            };
+            let route = rng.below(5);
+            log.desc = format!("value openTypeHeadCreated={:?} ({} bytes, {} chars) route={}", v, v.len(), v.chars().count(),
+                ["api", "api", "fontinfo.plist v3", "fontinfo.plist v2", "fontinfo.plist v1"][route as usize]);
+            log.hash = fnv(log.desc.as_bytes());
+            if route < 2 {
+                let mut font = Font::new();
+                font.font_info.open_type_head_created = Some(v.clone());
+                log.deep = true;
+                exercise_font(&deep, log, &font, rng, true);
+            } else {
+                let ufo = deep.join("v.ufo");
+                let ver = [3u32, 2, 1][(route - 2) as usize];
+                tiny_ufo(&ufo, ver, Some(format!("<key>openTypeHeadCreated</key><string>{}</string>", xml_escape(&v))), None, None);
+                if let Some(Ok(font)) = log.guard("Font::load", || Font::load(&ufo), |r| r.is_ok()) {
+                    log.deep = true;
+                    exercise_font(&deep, log, &font, rng, true);
+                }
+            }
+        }
+        4 | 5 => {
+            // colour strings "r,g,b,a"
+            let bases = ["1,0,0,1", "0.5,0.25,1,0", "1,1,1,1", "0,0,0", "1,0,0,1,0", "1, 0, 0, 1", ",,,", "1,0,0,1.000"];
+            let same_bytes = rng.chance(1, 2);
+            let base = *rng.pick(&bases);
+            let v = substitute(rng, base, same_bytes);
+            log.desc = format!("value color={:?}", v);
+            log.hash = fnv(log.desc.as_bytes());
+            log.guard("Color::from_str", || v.parse::<Color>().is_ok(), |_| true);
+            let glif = format!("<?xml version=\"1.0\" encoding=\"UTF-8\"?>\n<glyph name=\"a\" format=\"2\"><guideline x=\"1\" color=\"{}\"/><anchor x=\"1\" y=\"2\" color=\"{}\"/><image fileName=\"i.png\" color=\"{}\"/></glyph>", v, v, v);
+            if let Some(Ok(g)) = log.guard("Glyph::parse_raw", || Glyph::parse_raw(glif.as_bytes()), |r| r.is_ok()) {
+                log.deep = true;
+                exercise_glyph(log, &g, &opts_from(rng), true);
+            }
+            let ufo = deep.join("v.ufo");
+            tiny_ufo(&ufo, 3, None, Some(format!("<key>color</key><string>{}</string>", xml_escape(&v))), None);
+            if let Some(Ok(font)) = log.guard("Font::load", || Font::load(&ufo), |r| r.is_ok()) {
+                log.deep = true;
+                exercise_font(&deep, log, &font, rng, true);
+            }
+        }
+        6 | 7 => {
+            // identifiers around the 100-byte limit, hex code points, names
+            let n = *rng.pick(&[1usize, 50, 98, 99, 100, 101, 102, 104]);
+            let same_bytes = rng.chance(1, 2);
+            let id = substitute(rng, &"a".repeat(n), same_bytes);
+            let hb = *rng.pick(&["0041", "10FFFF", "110000", "D800", "FFFFFFFF", "1F600", "00000041", "41"]);
+            let hs = rng.chance(1, 2);
+            let hex = substitute(rng, hb, hs);
+            log.desc = format!("value identifier={:?} ({} bytes, {} chars) hex={:?}", id, id.len(), id.chars().count(), hex);
+            log.hash = fnv(log.desc.as_bytes());
+            log.guard("Identifier::new", || Identifier::new(&id).is_ok(), |_| true);
+            log.guard("Name::new", || Name::new(&id).is_ok(), |_| true);
+            let glif = format!("<?xml version=\"1.0\" encoding=\"UTF-8\"?>\n<glyph name=\"a\" format=\"2\"><unicode hex=\"{}\"/><guideline x=\"1\" identifier=\"{}\"/><outline><contour identifier=\"{}x\"><point x=\"0\" y=\"0\" type=\"line\" identifier=\"{}y\"/></contour><component base=\"b\" identifier=\"{}z\"/></outline></glyph>", hex, id, id, id, id);
+            if let Some(Ok(g)) = log.guard("Glyph::parse_raw", || Glyph::parse_raw(glif.as_bytes()), |r| r.is_ok()) {
+                log.deep = true;
+                exercise_glyph(log, &g, &opts_from(rng), true);
+            }
+            let fi = format!("<key>guidelines</key><array><dict><key>x</key><integer>1</integer><key>identifier</key><string>{}</string></dict></array>", xml_escape(&id));
+            let ufo = deep.join("v.ufo");
+            tiny_ufo(&ufo, 3, Some(fi), None, None);
+            if let Some(Ok(font)) = log.guard("Font::load", || Font::load(&ufo), |r| r.is_ok()) {
+                log.deep = true;
+                exercise_font(&deep, log, &font, rng, true);
+            }
+        }
+        _ => {
+            // numbers in glif attributes (advance, transform, coordinates, angle) and format numbers
+            let nums = ["1", "0.5", "-1", "1e3", "360", "0", "1.0", "+1", "100"];
+            let (ab, asb) = (*rng.pick(&nums), rng.chance(1, 2));
+            let a = substitute(rng, ab, asb);
+            let (bb, bsb) = (*rng.pick(&nums), rng.chance(1, 2));
+            let b = substitute(rng, bb, bsb);
+            let fmt = if rng.chance(1, 4) { substitute(rng, "2", false) } else { (*rng.pick(&["1", "2"])).to_string() };
+            log.desc = format!("value numbers a={:?} b={:?} format={:?}", a, b, fmt);
+            log.hash = fnv(log.desc.as_bytes());
+            let glif = format!("<?xml version=\"1.0\" encoding=\"UTF-8\"?>\n<glyph name=\"a\" format=\"{}\" formatMinor=\"{}\"><advance width=\"{}\" height=\"{}\"/><image fileName=\"i.png\" xScale=\"{}\" xyScale=\"{}\" yOffset=\"{}\"/><guideline x=\"{}\" y=\"{}\" angle=\"{}\"/><outline><contour><point x=\"{}\" y=\"{}\" type=\"line\" smooth=\"{}\"/></contour><component base=\"b\" xScale=\"{}\"/></outline></glyph>", fmt, b, a, b, a, b, a, a, b, a, a, b, a, b);
+            let r = log.guard("Glyph::parse_raw", || Glyph::parse_raw(glif.as_bytes()), |r| r.is_ok());
+            if let Some(Ok(g)) = r {
+                log.deep = true;
+                exercise_glyph(log, &g, &opts_from(rng), true);
+            }
+            let ufo = deep.join("v.ufo");
+            let fi = format!("<key>unitsPerEm</key><real>{}</real><key>versionMajor</key><integer>{}</integer><key>openTypeOS2Panose</key><array>{}</array>", xml_escape(&a), xml_escape(&b), format!("<integer>{}</integer>", xml_escape(&b)).repeat(10));
+            tiny_ufo(&ufo, 3, Some(fi), None, Some(glif.as_bytes()));
+            if let Some(Ok(font)) = log.guard("Font::load", || Font::load(&ufo), |r| r.is_ok()) {
+                log.deep = true;
+                exercise_font(&deep, log, &font, rng, true);
+            }
+        }
+    }
+    if !keep {
+        let _ = std::fs::remove_dir_all(top);
+    }
 }
 
 // ------------------------------------------------------------------------------------ names
